@@ -436,6 +436,13 @@ pub fn build(
                 .flatten())
             .unwrap_or(semantic.type_registry.pointer_size());
 
+        // The alignment ends up in a `repr(align(N))` attribute, which only admits powers of two.
+        if !alignment.is_power_of_two() {
+            anyhow::bail!(
+                "alignment {alignment} is not a power of two for type `{resolvee_path}`"
+            );
+        }
+
         // Calculate the minimum required alignment.
         let required_alignment = util::lcm(
             regions
